@@ -83,6 +83,21 @@ fn main() {
 			common::silence_panics();
 			let mut ok = true;
 			ok &= selfcheck_determinism(&c01::C01, 200);
+			for (id, suts) in [("C02", defs::C02_SUTS), ("C03", defs::C03_SUTS), ("C04", defs::C04_SUTS), ("C14", defs::C14_SUTS)] {
+				ok &= selfcheck_determinism(&defs::DefCheck { id, suts }, 120);
+			}
+			ok &= selfcheck_determinism(&sched::SchedCheck { id: "C09" }, 170);
+			ok &= selfcheck_determinism(&sched::SchedCheck { id: "C13" }, 90);
+			ok &= selfcheck_determinism(&c05::IndCheck { id: "C05" }, 72);
+			ok &= selfcheck_determinism(&c05::IndCheck { id: "C06" }, 72);
+			ok &= selfcheck_determinism(&c07::C07, 8);
+			ok &= selfcheck_determinism(&c08::C08, 90);
+			ok &= selfcheck_determinism(&c10::C10, 300);
+			ok &= selfcheck_determinism(&c11::C11, 80);
+			ok &= selfcheck_determinism(&c12::C12, 120);
+			ok &= selfcheck_determinism(&c15::C15, 170);
+			ok &= selfcheck_determinism(&c17::C17, 120);
+			ok &= selfcheck_determinism(&builds::BuildCheck { id: "C19" }, 40);
 			println!("determinism self-check: {}", if ok { "ok" } else { "FAILED" });
 			if ok {
 				0
